@@ -3,6 +3,7 @@ package main
 import (
 	"errors"
 	"fmt"
+	"math/rand"
 	"runtime"
 	"sync"
 	"sync/atomic"
@@ -107,6 +108,8 @@ func (p *c32gated) Prompt(m string) (string, error) {
 	return "answer to " + m, nil
 }
 
+func newRand(seed int64) *rand.Rand { return rand.New(rand.NewSource(seed)) }
+
 type c32special struct {
 	Index     int    `json:"round"`
 	Kind      string `json:"kind"` // error-first | unregister-in-flight
@@ -137,6 +140,7 @@ func runC32Special(r *vk.Run, sp c32special) (sig string, hang bool) {
 	var uCall, uRet atomic.Int64
 	call := func(caller int, method string) {
 		defer wg.Done()
+		defer c32Recover(r, sp)
 		text := fmt.Sprintf("s%d-c%d", sp.Index, caller)
 		c := c32call{Caller: caller, Method: method, Text: text, Call: clock.Add(1)}
 		var err error
@@ -237,7 +241,7 @@ func runC32Special(r *vk.Run, sp c32special) (sig string, hang bool) {
 	switch c32health.waitDone(wgChan(&wg), hangBound) {
 	case "ok":
 	case "hang":
-		r.Violation(map[string]string{"check": "call-did-not-return", "scenario": sp.Kind}, "a Message/Prompt/UnregisterPrompter call did not return", map[string]any{"round": sp, "prompter_entries": len(p.entries), "prompter_exits": p.exits.Load()})
+		r.Violation(map[string]string{"check": "call-did-not-return", "scenario": sp.Kind}, "a Message/Prompt/UnregisterPrompter call did not return", map[string]any{"round": sp, "prompter_exits": p.exits.Load()})
 		return "", true
 	default:
 		r.Inconclusive("scheduler-unhealthy")
